@@ -542,7 +542,7 @@ func init() {
 
 func main() {
 	rep := ev.New("C09", "exploration")
-	rep.Rule = "cases = product of (document of 1-3 operations over query/mutation/subscription with distinct root fields, plus anonymous and invalid documents) x operationName (absent, each name, unknown) x 7 request encodings x 9 Accept values x 5 ResponseHeaders settings x 3 transport registration orders x 2 error presenters (default, sanitising) x APQ mode (inline, register, hash-only); every case is judged against the specification function. A case is non-trivial when it is not the plain single-query/no-Accept/no-ResponseHeaders request, i.e. it exercises operation selection, GET refusal, an invalid document, negotiation or configured headers; distinct = distinct case keys among those"
+	rep.Rule = "cases = product of (document of 1-3 operations over query/mutation/subscription with distinct root fields, plus anonymous and invalid documents) x operationName (absent, each name, unknown) x 7 request encodings x 9 Accept values x 6 ResponseHeaders settings x 3 transport registration orders x 2 error presenters (default, sanitising) x APQ mode (inline, register, hash-only); every case is judged against the specification function. A case is non-trivial when it is not the plain single-query/no-Accept/no-ResponseHeaders request, i.e. it exercises operation selection, GET refusal, an invalid document, negotiation or configured headers; distinct = distinct case keys among those"
 	rep.Assumptions = []string{
 		"specification function written from the property text, the GraphQL-over-HTTP draft and the transports' doc comments; media types compared without parameters; where the draft leaves a choice (no Accept header, */*, nothing acceptable) every permitted answer is accepted",
 		"client-error status: 422 for application/json, 400 for application/graphql-response+json (property statement); the refusal of a non-query over GET may use any 4xx (the draft says 405, gqlgen answers 406; the property only says 'refused')",
